@@ -173,7 +173,7 @@ struct WRun {
 
 static void writer_case(Src &s) {
     Stats &st = stats();
-    unsigned how = s.u8() % 3;  // 0 init, 1 reset, 2 init after NULL-arg error
+    unsigned how = s.u8() % 5;  // 0 init, 1 reset, 2 init after NULL-arg error, 3 NULL-arg error as the very first call then reset, 4 ... then init
     unsigned capsel = s.u16();
     std::vector<WOp> a = gen_arbitrary_ops(s, false), b = gen_arbitrary_ops(s, false);
     Payloads pa(a), pb(b);
@@ -185,16 +185,17 @@ static void writer_case(Src &s) {
     memset(&used.w, 0xEE, sizeof used.w);
     memset(&fresh.w, 0, sizeof fresh.w);
     binson_writer_init(&used.w, used.dst.p, used.dst.n);
-    used.seq(a, pa, false);
+    if (how >= 3) { if (capsel & 1) binson_write_string(&used.w, nullptr); else binson_write_raw(&used.w, nullptr, 2); }
+    if (how < 3 || (capsel & 2)) used.seq(a, pa, false);
     if (how == 2) binson_write_string(&used.w, nullptr);
     bool prev_err = used.w.error_flags != BINSON_ERROR_NONE;
     bool ok;
-    if (how == 1) ok = binson_writer_reset(&used.w);
+    if (how == 1 || how == 3) ok = binson_writer_reset(&used.w);
     else ok = binson_writer_init(&used.w, used.dst.p, used.dst.n);
     binson_writer_init(&fresh.w, fresh.dst.p, fresh.dst.n);
     if (!ok) { st.label("w:restart-refused"); return; }
     if (binson_writer_get_counter(&used.w) != 0 || used.w.error_flags != BINSON_ERROR_NONE)
-        VH_FAIL(fmt("C12/writer/not-clean-after-%s", how == 1 ? "reset" : "init"), "counter %zu error %s right after a successful %s", binson_writer_get_counter(&used.w), err_name(used.w.error_flags), how == 1 ? "reset" : "init");
+        VH_FAIL(fmt("C12/writer/not-clean-after-%s", (how == 1 || how == 3) ? "reset" : "init"), "counter %zu error %s right after a successful %s", binson_writer_get_counter(&used.w), err_name(used.w.error_flags), (how == 1 || how == 3) ? "reset" : "init");
     // the destination blocks differ in content (the used one holds the previous output): give both the same background
     memset(used.dst.p, 0x11, used.dst.n);
     used.seq(b, pb, true);
@@ -202,7 +203,8 @@ static void writer_case(Src &s) {
     if (used.trace != fresh.trace || memcmp(used.dst.p, fresh.dst.p, cap) != 0)
         VH_FAIL(fmt("C12/writer/differs-after-%s%s", how == 1 ? "reset" : "init", prev_err ? "/prev-error" : ""), "a reused writer behaves differently from a fresh one; next sequence: %s", ops_text(b).c_str());
     if (prev_err) { st.nontrivial(mix(fnv(ea.data(), ea.size()), fnv(eb.data(), eb.size(), cap))); st.label("w:prev-error"); }
-    st.label(how == 1 ? "w:restart-reset" : "w:restart-init");
+    st.label((how == 1 || how == 3) ? "w:restart-reset" : "w:restart-init");
+    if (how >= 3) st.label("w:prev-null-arg-first-call");
 }
 
 static void run_case(Src &s) {
